@@ -204,6 +204,17 @@ SlashFamily == { Scn("slash", F(<<p>>, <<>>), <<v>>, <<>>) : p \in SlashLabels, 
                \cup { Scn("slash", F(<<p>>, <<>>), <<>>, <<F(<<>>, <<v>>)>>) : p \in SlashLabels, v \in SlashLabels }
 
 -----------------------------------------------------------------------------
+\* C10: Convert to every kind of target type from every kind of provision (directly supplied, produced by a provider,
+\* produced by a converter from a supplied T3), interfaces that implement wider / narrower interfaces included
+C10Types == {"T1", "T2", "P1", "U1", "I1", "I2", "I12"}
+C10Scn(t, ins, cs) == [Scn("c10", [F(<<L("", t, "")>>, <<L("", t, "")>>) EXCEPT !.form = "pos"], ins, cs) EXCEPT !.mode = "convcall"]
+C10Family == { C10Scn(t, <<L("", pv, "")>>, <<>>) : t \in C10Types, pv \in {"T1", "T2", "P1", "U1"} }
+             \cup { C10Scn(t, <<>>, <<FP(<<>>, <<L("", pv, "")>>)>>) : t \in C10Types, pv \in C10Types }
+             \cup { C10Scn(t, <<L("", "T3", "")>>, <<FP(<<L("", "T3", "")>>, <<L("", pv, "")>>)>>) : t \in C10Types, pv \in C10Types }
+             \cup { C10Scn(t, <<L("", "T3", "")>>, <<FP(<<L("", "T3", "")>>, <<L("", mid, "")>>), FP(<<L("", mid, "")>>, <<L("", pv, "")>>)>>) :
+                       t \in {"I1", "T1"}, mid \in {"I12", "I2", "T2"}, pv \in {"I1", "I12", "T1", "T2"} }
+
+-----------------------------------------------------------------------------
 \* C16: option processing.  Exact-key targets; every arrangement of the supplied values in which keys
 \* repeat (the last occurrence must win), every default/call split, nil values, a nil option.
 \* (name casing is varied by the harness at the API and in the struct tags)
@@ -234,6 +245,7 @@ FamilyScenarios == CASE Family = "C03" -> C03Family
                      [] Family = "C04" -> C04Family
                      [] Family = "C13" -> CycleFamily \cup MatchFamily \cup SlashFamily
                      [] Family = "C01" -> C03Family \cup CycleFamily \cup MatchFamily \cup OutFamily \cup SlashFamily
+                     [] Family = "C10" -> C10Family
                      [] Family = "C15" -> OutFamily \cup MatchFamily
                      [] Family = "C16" -> {x \in C16Family : x.ndef <= Len(x.inputs)}
                      [] OTHER -> {}
